@@ -70,6 +70,8 @@ def _fingerprint(ostream, verdict):
         if attr:
             fp += ":" + attr[0]
         fp += ":" + body.split("/")[0]         # xDS type (cds/eds/rds/sds)
+        if "#" in body:                        # the cause, when the differing field identifies it (e.g. stale-mx)
+            fp += ":" + body.rsplit("#", 1)[1]
     return fp, clause
 
 
